@@ -62,6 +62,7 @@ from pip._internal.cli.cmdoptions import src
 from vsc.model.solvegroup_swizzler_range import SolveGroupSwizzlerRange
 from vsc.model.solvegroup_swizzler_partsel import SolveGroupSwizzlerPartsel
 from vsc.impl.ctor import glbl_debug, glbl_solvefail_debug
+from vsc.impl import verif_hook
 
 # Newer PyBoolector releases only expose option ids via the BtorOption enum
 def _btor_opt(name):
@@ -610,8 +611,12 @@ class Randomizer(RandIF):
 #            Randomizer._rng = random.Random(random.randrange(sys.maxsize))
         ri = RandInfoBuilder.build(field_model_l, constraint_l, Randomizer._rng)
         
+        if verif_hook.enabled:
+            verif_hook.solve_begin(ri, bounds_v.bound_m)
         try:
             r.randomize(ri, bounds_v.bound_m)
+            if verif_hook.enabled:
+                verif_hook.solve_end("ok")
         finally:
             # Rollback any constraints we've replaced for arrays
             if solve_info is not None:
